@@ -10,6 +10,7 @@ Mode theorems are stated for an arbitrary `C : Cipher`; `hlen` says that the blo
 import Bee2V.C01.Lemmas.Stream
 import Bee2V.C01.Lemmas.Block
 namespace Bee2V.C01
+open Bee2V.C01.Stream
 
 /-- a toy block transformation pair used by the non-vacuity examples (evaluated by `decide`) -/
 def toyC : Cipher :=
@@ -21,6 +22,20 @@ example : ∀ k x : Bytes, x.length = 16 → (toyC.enc k x).length = 16 := by
   intro k x h
   simp only [toyC, List.length_map, length_xorb, List.length_take, List.length_append, zeros, List.length_replicate]
   omega
+
+/-- ... and so is `hDE` -/
+example : ∀ k x : Bytes, x.length = 16 → toyC.dec k (toyC.enc k x) = x := by
+  intro k x h
+  have hm : ∀ l : Bytes, (l.map (· + 1)).map (· - 1) = l := by
+    intro l
+    induction l with
+    | nil => rfl
+    | cons a l ih =>
+      have : a + 1 - 1 = a := by grind
+      simp only [List.map_cons, ih, this]
+  simp only [toyC, hm]
+  exact xorb_cancel_right _ _ (by
+    simp only [List.length_take, List.length_append, zeros, List.length_replicate]; omega)
 
 /-- call a Step function on consecutive fragments, threading the state:
 `(final state, list of the processed fragments)` -/
@@ -77,6 +92,18 @@ theorem ctrStepE_involution (C : Cipher) (hlen : ∀ k x, x.length = 16 → (C.e
     (ctrStepE C st (ctrStepE C st buf).2).2 = buf ∧
     (ctrStepE C st (ctrStepE C st buf).2).1 = (ctrStepE C st buf).1 :=
   (ctrStepE_roundtrip C hlen st hr hb hc buf).2
+
+/-- Fragment-wise CTR: processing the fragments with consecutive `beltCTRStepE` calls and then processing the
+results again the same way from the same initial state returns the original fragments (same final state). -/
+theorem ctr_fragments (C : Cipher) (hlen : ∀ k x, x.length = 16 → (C.enc k x).length = 16)
+    (frags : List Bytes) (st : CtrSt) (hr : st.reserved ≤ 16) (hb : st.block.length = 16) (hc : st.ctr.length = 16) :
+    runFrags (ctrStepE C) st (runFrags (ctrStepE C) st frags).2 = ((runFrags (ctrStepE C) st frags).1, frags) := by
+  induction frags generalizing st with
+  | nil => rfl
+  | cons f fs ih =>
+    obtain ⟨_, h2, h3⟩ := ctrStepE_roundtrip C hlen st hr hb hc f
+    obtain ⟨i1, i2, i3⟩ := ctrStepE_inv C hlen st hr hb hc f
+    simp only [runFrags, h2, h3, ih _ i1 i2 i3]
 
 example : (ctrStepE toyC ⟨[1, 2, 3], zeros 16, (zeros 15) ++ [9], 5⟩ [1, 2, 3, 4, 5, 6, 7]).2 = [1, 2, 3, 4, 12, 7, 4] := by
   decide
